@@ -49,6 +49,16 @@ READS = RP_CONTRACTS[2:]
 PXC = 'pexpect.pxssh.pxssh.'
 
 PROPS = {
+    'C15': {
+        'contracts': ['pexpect.pty_spawn.spawn.interact', 'pexpect.pty_spawn.spawn.__interact_copy', 'pexpect.pty_spawn.spawn.__interact_writen'],
+        'assumptions': [
+            'the two ends are seen through oracles (contracts/interact.py): os.read(child_fd) takes a non-empty prefix of the unread child output or reports EOF iff none is left and the child is gone; os.write(child_fd) may write any non-empty prefix; os.read(STDIN) returns any bytes; isalive() is False iff the child has exited; select/poll may return any subset of the two descriptors',
+            'os.write(STDOUT_FILENO, data) to the user\'s blocking terminal takes all of data (its return value is ignored by the code); a non-blocking or interrupted stdout is outside the contracts',
+            'input_filter / output_filter are arbitrary functions from bytes to bytes, applied once per read; "unchanged" means exactly their results, in order',
+            'tty.tcgetattr / setraw / tcsetattr are modelled as reading / replacing one terminal-mode value; write_to_stdout and sys.stdout.flush as recording their argument',
+            'liveness (that interact() eventually returns) and what the terminal driver does with the bytes are not claimed',
+        ],
+    },
     'C03': {
         'contracts': [E + 'do_search', E + 'existing_data', E + 'new_data', E + 'expect_loop', SS + 'search', SR + 'search',
                       SS + '__init__', SR + '__init__', E + '__init__',
